@@ -1549,6 +1549,257 @@ fn gen_c08(o: &mut Out, r: &mut Rng, d: &GDict, tier: &str, cuts: bool) {
     }
 }
 
+/* ---------- client families ---------- */
+
+fn permutations(n: usize) -> Vec<Vec<usize>> {
+    fn go(cur: &mut Vec<usize>, used: &mut Vec<bool>, n: usize, out: &mut Vec<Vec<usize>>) {
+        if cur.len() == n {
+            out.push(cur.clone());
+            return;
+        }
+        for i in 0..n {
+            if !used[i] {
+                used[i] = true;
+                cur.push(i);
+                go(cur, used, n, out);
+                cur.pop();
+                used[i] = false;
+            }
+        }
+    }
+    let mut out = vec![];
+    go(&mut vec![], &mut vec![false; n], n, &mut out);
+    out
+}
+
+/// an answer frame for hop-by-hop id h, identified by its end-to-end id
+fn answer_frame(r: &mut Rng, d: &GDict, h: u32, uid: u32) -> Vec<u8> {
+    let mut m = message(r, d, 3, 1);
+    m.flags = 0;
+    m.hbh = h;
+    m.e2e = uid;
+    m.encode(&mut None)
+}
+
+/// size of the request the harness builds for (h, len): header 20 + OctetString AVP of len octets
+fn request_size(len: usize) -> usize {
+    20 + 8 + len + pad(len)
+}
+
+fn seg(r: &mut Rng, f: &[u8], mode: u64) -> Vec<String> {
+    match mode {
+        0 => vec![format!("d:{}", hex(f))],
+        1 => {
+            let c = 1 + r.below(f.len() as u64 - 1) as usize;
+            vec![format!("d:{}", hex(&f[..c])), "p".into(), format!("d:{}", hex(&f[c..]))]
+        }
+        2 => {
+            // dribble through the length prefix and header, then the rest
+            let k = 24.min(f.len());
+            let mut v: Vec<String> = f[..k].iter().map(|b| format!("d:{:02x}", b)).collect();
+            if k < f.len() {
+                v.push(format!("d:{}", hex(&f[k..])));
+            }
+            v
+        }
+        3 => {
+            // a long silence in the middle of the message (seconds of virtual time)
+            let c = [1usize, 3, 4, 5, 19, 20, 21, 27][r.below(8) as usize].min(f.len() - 1);
+            vec![format!("d:{}", hex(&f[..c])), format!("t:{}", [700u64, 1500, 31000][r.below(3) as usize]), format!("d:{}", hex(&f[c..]))]
+        }
+        _ => {
+            let c = [1usize, 3, 4, 5, 19, 20, 21][r.below(7) as usize].min(f.len() - 1);
+            vec![format!("d:{}", hex(&f[..c])), format!("d:{}", hex(&f[c..]))]
+        }
+    }
+}
+
+fn gen_c11(o: &mut Out, r: &mut Rng, d: &GDict, tier: &str) {
+    let thorough = tier == "thorough";
+    let mut uid = 5000u32;
+    for n in 1..=5usize {
+        let perms = permutations(n);
+        let perms: Vec<Vec<usize>> = if n <= 3 || (thorough && n == 4) { perms } else { (0..(if thorough { 60 } else { 12 })).map(|_| r.pick(&perms).clone()).collect() };
+        for perm in perms {
+            for variant in 0..(if thorough { 24 } else { 8 }) {
+                // distinct hop-by-hop ids (edge values included), request sizes
+                let mut ids: Vec<u32> = vec![];
+                while ids.len() < n {
+                    let h = match r.below(6) {
+                        0 => 0,
+                        1 => 4294967295,
+                        2 => 1 + ids.len() as u32,
+                        _ => r.next() as u32,
+                    };
+                    if !ids.contains(&h) {
+                        ids.push(h);
+                    }
+                }
+                let lens: Vec<usize> = (0..n).map(|_| *r.pick(&[0usize, 0, 5, 40, 300])).collect();
+                let sizes: Vec<usize> = lens.iter().map(|l| request_size(*l)).collect();
+                let total: usize = sizes.iter().sum();
+                // the octet count at which request j's first octet is out
+                let start = |j: usize| -> usize { sizes[..j].iter().sum::<usize>() + 1 };
+                let eager = variant % 2 == 0;
+                let mut rd: Vec<String> = vec![];
+                let mut ans: Vec<String> = vec![];
+                let mut gate = 0usize;
+                for &j in &perm {
+                    uid += 1;
+                    let g = if eager { start(j) + [0usize, 3, 19][r.below(3) as usize].min(sizes[j] - 1) } else { total };
+                    gate = gate.max(g);
+                    rd.push(format!("w:{}", gate));
+                    let f = answer_frame(r, d, ids[j], uid);
+                    let sm = r.below(5); rd.extend(seg(r, &f, sm));
+                    ans.push(format!("{}:{}", ids[j], uid));
+                }
+                rd.push(if variant % 3 == 0 { "e".into() } else { "s".to_string() });
+                // client write script: deviation-bounded Pending / partial-write placements
+                let wr = match variant % 8 {
+                    0 => "a4,p,p,p".to_string(),
+                    1 => "-".to_string(),
+                    2 => "a1,p,a3,p,a16,p,p".to_string(),
+                    3 => "p,p".to_string(),
+                    4 => {
+                        // a pause after the first octets of every request
+                        let mut v = vec![];
+                        for s in &sizes {
+                            v.push("a1".to_string());
+                            v.push("p".to_string());
+                            v.push("p".to_string());
+                            v.push(format!("a{}", s));
+                        }
+                        v.join(",")
+                    }
+                    5 => vec!["a7,p"; 12].join(","),
+                    _ => random_wscript(r, total),
+                };
+                let sends: Vec<String> = (0..n).map(|i| format!("{}:{}", ids[i], lens[i])).collect();
+                o.case(&format!("client n={} eager={} expect=all silent={}", n, eager as u8, (variant % 3 != 0) as u8));
+                o.line(&format!("cli {} {} {} {} -", sends.join(","), rd.join(","), wr, ans.join(",")));
+            }
+        }
+    }
+}
+
+fn gen_c12(o: &mut Out, r: &mut Rng, d: &GDict, tier: &str) {
+    let thorough = tier == "thorough";
+    let mut uid = 9000u32;
+    let n_corpus = if thorough { 40 } else { 8 };
+    for ci in 0..n_corpus {
+        let n = 1 + (ci % 4);
+        let ids: Vec<u32> = (0..n).map(|i| 100 + 7 * i as u32 + (ci as u32) * 1000).collect();
+        let lens: Vec<usize> = (0..n).map(|_| *r.pick(&[0usize, 5, 40])).collect();
+        let total: usize = lens.iter().map(|l| request_size(*l)).sum();
+        let sends: Vec<String> = (0..n).map(|i| format!("{}:{}", ids[i], lens[i])).collect();
+        let mut frames: Vec<Vec<u8>> = vec![];
+        let mut ans: Vec<String> = vec![];
+        for &h in &ids {
+            uid += 1;
+            frames.push(answer_frame(r, d, h, uid));
+            ans.push(format!("{}:{}", h, uid));
+        }
+        let stream: Vec<u8> = frames.concat();
+        // (1) the answer stream cut at EVERY byte offset, ended by close / reset / garbage
+        let mut boundaries = vec![0usize];
+        for f in &frames {
+            boundaries.push(boundaries.last().unwrap() + f.len());
+        }
+        for p in 0..=stream.len() {
+            for end in 0..3 {
+                // an undecodable continuation is spliced in at frame boundaries only (inside a frame the spliced octets
+                // could complete a well-formed message, which the peer then did send)
+                if end == 2 && !boundaries.contains(&p) {
+                    continue;
+                }
+                let mut rd = vec![format!("w:{}", total)];
+                if p > 0 {
+                    if (p + end) % 2 == 0 {
+                        rd.push(format!("d:{}", hex(&stream[..p])));
+                    } else {
+                        let c = p / 2;
+                        if c > 0 {
+                            rd.push(format!("d:{}", hex(&stream[..c])));
+                        }
+                        rd.push("p".into());
+                        rd.push(format!("d:{}", hex(&stream[c..p])));
+                    }
+                }
+                match end {
+                    0 => rd.push("e".into()),
+                    1 => rd.push("f".into()),
+                    _ => {
+                        // undecodable continuation: a length prefix announcing 3 octets
+                        rd.push("d:01000003ffffffff".into());
+                        rd.push("e".into());
+                    }
+                }
+                let late = if p % 3 == 0 { (9000000 + p).to_string() } else { "-".to_string() };
+                o.case(&format!("client cut={} end={} n={} expect=any silent=0", p, end, n));
+                o.line(&format!("cli {} {} {} {} {}", sends.join(","), rd.join(","), if p % 2 == 0 { "-" } else { "a5,p,p" }, ans.join(","), late));
+            }
+        }
+        // (2) one corrupted answer at every position (unknown command code; unknown AVP; oversized announcement)
+        for k in 0..n {
+            for kind in 0..3 {
+                let mut fr = frames.clone();
+                match kind {
+                    0 => fr[k][5] = 0x7f,
+                    1 => fr[k][1] = 0x40,
+                    _ => {
+                        let l = fr[k].len();
+                        if l >= 28 {
+                            fr[k][20..24].copy_from_slice(&[0, 0, 0x30, 0x39]);
+                        } else {
+                            fr[k][8] = 0x55;
+                        }
+                    }
+                }
+                let s2: Vec<u8> = fr.concat();
+                o.case(&format!("client corrupt={} kind={} n={} expect=any silent=0", k, kind, n));
+                o.line(&format!("cli {} w:{},d:{},s {} {} {}", sends.join(","), total, hex(&s2), "-", ans[..k].join(",").to_string() + if k == 0 { "-" } else { "" }, 777));
+            }
+        }
+        // (3) an unmatched answer (id nobody asked for) / a duplicate answer, at every position
+        for k in 0..=n {
+            for dup in [false, true] {
+                if dup && k == 0 {
+                    continue;
+                }
+                uid += 1;
+                let hid = if dup { ids[k - 1] } else { 4000000 + k as u32 };
+                let extra = answer_frame(r, d, hid, uid);
+                let mut fr: Vec<Vec<u8>> = frames[..k].to_vec();
+                fr.push(extra);
+                fr.extend(frames[k..].iter().cloned());
+                let mut a2: Vec<String> = ans[..k].to_vec();
+                a2.push(format!("{}:{}", hid, uid));
+                o.case(&format!("client unmatched={} dup={} n={} expect=any silent=0", k, dup as u8, n));
+                o.line(&format!("cli {} w:{},d:{},s {} {} {}", sends.join(","), total, hex(&fr.concat()), "p,a9", a2.join(","), 888));
+            }
+        }
+        // (4) a newer request with the same identifier supersedes the older waiter
+        if n >= 2 {
+            let mut s2 = sends.clone();
+            s2[n - 1] = format!("{}:{}", ids[0], lens[n - 1]);
+            uid += 1;
+            let f = answer_frame(r, d, ids[0], uid);
+            o.case(&format!("client superseded n={} expect=any silent=1", n));
+            o.line(&format!("cli {} w:{},d:{},s - {}:{} -", s2.join(","), total, hex(&f), ids[0], uid));
+            o.case(&format!("client superseded-then-close n={} expect=any silent=0", n));
+            o.line(&format!("cli {} w:{},d:{},e - {}:{} 55", s2.join(","), total, hex(&f), ids[0], uid));
+        }
+        // (5) a silent, open peer: pending is the right answer, and only then
+        o.case(&format!("client silent n={} expect=any silent=1", n));
+        o.line(&format!("cli {} w:{},d:{},s - {} -", sends.join(","), total, hex(&frames[0]), ans[0]));
+        // (6) the peer closes before anything was sent / while the first request is half written
+        o.case(&format!("client early-close n={} expect=any silent=0", n));
+        o.line(&format!("cli {} e - - 66", sends.join(",")));
+        o.case(&format!("client close-mid-write n={} expect=any silent=0", n));
+        o.line(&format!("cli {} w:3,e a3,p,p,p,a2,p - 67", sends.join(",")));
+    }
+}
+
 /* ---------- dictionary families ---------- */
 
 const TYPE_SPELLINGS: [&str; 24] = [
@@ -2040,6 +2291,14 @@ pub fn generate(family: &str, seed: u64, tier: &str, extra: &[String], w: &mut d
         "c09" => {
             emit_dict(o.w, &d0);
             gen_c08(&mut o, &mut r, &d0, tier, true);
+        }
+        "c11" => {
+            emit_dict(o.w, &d0);
+            gen_c11(&mut o, &mut r, &d0, tier);
+        }
+        "c12" => {
+            emit_dict(o.w, &d0);
+            gen_c12(&mut o, &mut r, &d0, tier);
         }
         "c14" => gen_c14(&mut o, &mut r, tier),
         "c15" => gen_c15(&mut o, &mut r, tier, extra),
